@@ -18,6 +18,8 @@ FIXED = {
  "K-stale-error-ip-b": (ir([["call", 0, 23]], [("fn", [["try", [["throw", 11, "n"]], None, [["chk", "s9"]]]])]), {"s9": {"1": "op:5"}},
     "host panic in runtime_error(): a failing built-in operation inside a finally block that runs because of a pending `throw`"),
 }
+FIXED["K-handler-offset-65536"] = (dict(ir([["call", 0, 16]], [("fn", [["try", [["pad", 32753], ["pad1"], ["chk", "s5"], ["throw", 13, "s"]], None, [["ev", 14]]]])]), edge=True), {},
+    "a try block whose distance to its catch/finally block was exactly 65536 bytes got handler offsets encoded as 0 (size check `>` instead of `>=`): exceptions thrown in it were reported as unhandled and its finally block was skipped; now refused at compile time")
 PINNED = {
  "K-ret-nofinally": (ir([["try", [["ret", 5]], [["evexc", 2]], None], ["ev", 9]]), {},
     "`return` inside a try block whose statement has no finally clause does not return: execution falls through to the code after the statement"),
@@ -45,7 +47,7 @@ PINNED = {
 
 
 OPEN_TITLES = {k: v[2] for k, v in PINNED.items()}
-FIXED_COMMITS = {"K-catch-pop": "790993c", "K-stale-error-ip-a": "26bae81", "K-stale-error-ip-b": "26bae81"}
+FIXED_COMMITS = {"K-catch-pop": "790993c", "K-stale-error-ip-a": "26bae81", "K-stale-error-ip-b": "26bae81", "K-handler-offset-65536": "df4b5d7"}
 
 # ---- other properties: (property, id, status, commit, title, scenario dict)
 from sim.props import c09, c15, c12, c01, c16
